@@ -312,7 +312,8 @@ variable {α : Type} [Inhabited α] [Add α] [Sub α] [Mul α] [Div α] [Neg α]
 
 JOBS = [("SklearnModelAccuracy", "elementwise_score", "acc_elementwise_score"),
         ("SklearnModelAccuracy", "elementwise_null_score", "acc_elementwise_null_score"),
-        ("SklearnModelRocAuc", "elementwise_score", "auc_elementwise_score")]
+        ("SklearnModelRocAuc", "elementwise_score", "auc_elementwise_score"),
+        ("SklearnModelRocAuc", "elementwise_null_score", "auc_elementwise_null_score")]
 # SklearnModelRocAuc.elementwise_null_score is inside the subset as well (the vocabulary is in place) but no equivalence theorem has been written
 # for it; it stays hand-modelled (Ds.Util.aucNullElem) and is not generated, so that a harmless edit there does not break this tie.
 
